@@ -1235,3 +1235,153 @@ func TestVerifC16Rules(t *testing.T) {
 		t.Fatal(err)
 	}
 }
+
+// ---------------------------------------------------------------------------------------------
+// key family: the limiter of an event is determined by (rule, ALL bytes of the throttle key).  Groups of 2-3
+// distinct keys of byte lengths around typical buffer sizes that share all but their last byte(s) -- ASCII and
+// multi-byte, equal length and one a prefix of the other -- are sent through the real Plugin.Start / Do under each
+// of three rules (limits 2, 3 and the default rule's 1), interleaved, in one frozen bucket, limit+2 events per
+// key: every key must get exactly its own full budget.
+
+type c16KeysOut struct {
+	Groups     int       `json:"groups"`
+	Keys       int       `json:"keys"`
+	Decisions  int       `json:"decisions"`
+	Lengths    []int     `json:"lengths"`
+	Wrong      int       `json:"wrong"`
+	Violations []*c16Rec `json:"violations"`
+}
+
+var c16KeyLens = []int{1, 2, 8, 30, 31, 32, 33, 62, 63, 64, 65, 66, 126, 127, 128, 129, 130, 255, 256, 257, 258, 511, 512, 513, 1024, 1025, 4096, 4097}
+
+// n bytes of filler made of repetitions of unit (cut at a unit boundary, padded with '-')
+func c16Fill(unit string, n int) string {
+	if n <= 0 {
+		return ""
+	}
+	b := make([]byte, 0, n)
+	for len(b)+len(unit) <= n {
+		b = append(b, unit...)
+	}
+	for len(b) < n {
+		b = append(b, '-')
+	}
+	return string(b)
+}
+
+// groups of distinct keys whose byte length is n (or n, n+1 for the prefix shape)
+func c16KeyGroups(n int) [][]string {
+	var gs [][]string
+	ascii := c16Fill("pod-0123456789abcdef", n-1)
+	gs = append(gs, []string{ascii + "a", ascii + "b", ascii + "c"}) // differ in the last byte
+	gs = append(gs, []string{ascii + "a", ascii + "a" + "x"})         // one is a prefix of the other
+	if n >= 2 {
+		a2 := c16Fill("pod-0123456789abcdef", n-2)
+		gs = append(gs, []string{a2 + "ab", a2 + "ba", a2 + "bb"}) // differ in the last two bytes
+		gs = append(gs, []string{"a" + ascii[1:] + "z", "b" + ascii[1:] + "z"}) // differ in the FIRST byte only
+	}
+	if n >= 3 {
+		m2 := c16Fill("\u00e9\u044f", n-2)                                 // 2-byte runes
+		gs = append(gs, []string{m2 + "\u00e9", m2 + "\u00e8", m2 + "\u00ea"}) // last rune differs in its last byte only
+		gs = append(gs, []string{m2 + "\u00e9", m2 + "\u0439"})              // last rune differs in its first byte too
+	}
+	if n >= 4 {
+		m3 := c16Fill("\u65e5\u672c", n-3) // 3-byte runes
+		gs = append(gs, []string{m3 + "\u65e5", m3 + "\u65e6"})
+	}
+	return gs
+}
+
+func TestVerifC16Keys(t *testing.T) {
+	out := os.Getenv("VERIF_KEYS_OUT")
+	if out == "" {
+		t.Skip("VERIF_KEYS_OUT not set")
+	}
+	t0 := c16Base.Add(30 * time.Minute)
+	tsStr := t0.UTC().Format(time.RFC3339Nano)
+	env := &c16Env{
+		name: fmt.Sprintf("verif_c16_keys_%d", time.Now().UnixNano()),
+		ctl:  metric.NewCtl("verif_c16_keys", prometheus.NewRegistry(), 0, 0),
+		lg:   zap.NewNop().Sugar(),
+	}
+	limits := map[string]int{"g1": 2, "g2": 3, "g0": 1} // rule a (grp g1), rule b (grp g2), default rule c
+	res := &c16KeysOut{Lengths: c16KeyLens}
+	for _, n := range c16KeyLens {
+		for gi, g := range c16KeyGroups(n) {
+			conf := &Config{ThrottleField: "k8s_pod", TimeField: "time", DefaultLimit: int64(limits["g0"]), BucketsCount: 2,
+				BucketInterval: "1h", LimiterExpiration: "100000h",
+				Rules: []RuleConfig{
+					{Limit: int64(limits["g1"]), LimitKind: limitKindCount, Conditions: map[string]string{"grp": "g1"}},
+					{Limit: int64(limits["g2"]), LimitKind: limitKindCount, Conditions: map[string]string{"grp": "g2"}},
+				}}
+			test.NewConfig(conf, nil)
+			limitersMu.Lock()
+			delete(limiters, env.name)
+			limitersMu.Unlock()
+			p := &Plugin{}
+			p.Start(conf, &pipeline.ActionPluginParams{
+				PluginDefaultParams: pipeline.PluginDefaultParams{PipelineName: env.name, PipelineSettings: &pipeline.Settings{}, MetricCtl: env.ctl},
+				Logger:              env.lg,
+			})
+			p.limitersMap.setNowFn(func() time.Time { return t0 }, true)
+			res.Groups++
+			type id struct{ grp, key string }
+			var ids []id
+			for _, grp := range []string{"g1", "g2", "g0"} {
+				for _, k := range g {
+					ids = append(ids, id{grp, k})
+				}
+			}
+			passed := make([]int, len(ids))
+			sent := make([]int, len(ids))
+			for round := 0; round < 5; round++ { // interleaved: every identity once per round
+				for i, x := range ids {
+					if round >= limits[x.grp]+2 {
+						continue
+					}
+					root, err := insaneJSON.DecodeString(`{"time":"` + tsStr + `","k8s_pod":"` + x.key + `","grp":"` + x.grp + `"}`)
+					if err != nil {
+						panic(err)
+					}
+					if p.Do(&pipeline.Event{Root: root, Size: 1}) == pipeline.ActionPass {
+						passed[i]++
+					}
+					insaneJSON.Release(root)
+					sent[i]++
+					res.Decisions++
+				}
+			}
+			p.Stop()
+			for i, x := range ids {
+				res.Keys++
+				want := limits[x.grp]
+				if passed[i] == want {
+					continue
+				}
+				res.Wrong++
+				if len(res.Violations) < 12 {
+					kind := "over_limit"
+					if passed[i] < want {
+						kind = "early_reject"
+					}
+					show := x.key
+					if len(show) > 24 {
+						show = "..." + show[len(show)-24:]
+					}
+					res.Violations = append(res.Violations, &c16Rec{Kind: kind, Path: "plugin_keys", Slice: "keys", LKind: limitKindCount, Buckets: 2,
+						Step: gi, Must: -1,
+						Detail: fmt.Sprintf("key of %d bytes %q (group %d of length %d: %d keys sharing all but their last byte(s)), rule for grp=%s with limit %d: %d of %d events passed in one bucket, every key must get exactly its own budget",
+							len(x.key), show, gi, n, len(g), x.grp, want, passed[i], sent[i]),
+						Case: &c16Case{S: "keys"}})
+				}
+			}
+		}
+	}
+	limitersMu.Lock()
+	delete(limiters, env.name)
+	limitersMu.Unlock()
+	b, _ := json.Marshal(res)
+	if err := os.WriteFile(out, b, 0o644); err != nil {
+		t.Fatal(err)
+	}
+}
